@@ -591,6 +591,35 @@ def main():
             if t and t[0] == "P":
                 P[t[1]] = {w.split("=")[0]: w.split("=")[1] for w in t[2:]}
 
+    # ---- the solve driver: the control trace of every floating-point optimize() of this run (limited solves, re-solves after
+    # lifting a limit, objective-limit paths) replayed through coq/DriverModel.v
+    dq, dmeta = "", {}
+    for kk, runs_k in O.items():
+        dq += "LP d%s min 0\n" % kk
+        for rid, obs in runs_k.items():
+            for o in obs:
+                if "drvp" in o and "drvf" in o:
+                    tag = "t%s_%s" % (rid.replace(".", "_"), o.get("_step", 0))
+                    dq += "Q %s driver %s %s %s\n" % (tag, o["drvp"], o["drvf"], o.get("drv", ""))
+                    dmeta[("d%s" % kk, tag)] = (kk, rid, o)
+    if dq:
+        DA = S._ask(dq, "driver")
+        for (blk, tag), (kk, rid, o) in dmeta.items():
+            a = None
+            for l in DA.get(blk, []):
+                t = l.split()
+                if len(t) >= 4 and t[0] == "A" and t[1] == tag:
+                    a = t[3]
+            ck.count("driver-trace:" + ("agree" if a == "true" else "disagree"))
+            for code, nm in (("41", "verification-failed"), ("42", "objlimit-verified"), ("43", "objlimit-toggled"), ("25", "resolve-without-preprocessing")):
+                if (";" + o.get("drv", "")).find(";%s," % code) >= 0:
+                    ck.count("driver-path:" + nm)
+            if a != "true":
+                kind = (a or "missing").split(":")[0]
+                ck.violation("driver-correspondence:%s" % kind, "the control trace of the solve driver differs from coq/DriverModel.v in run %s of LP %s: %s" % (rid, kk, a),
+                             {"lp": lps[int(kk)].text("replay") if str(kk).isdigit() and int(kk) < len(lps) else None, "run": rid, "observed": {x: y for x, y in o.items() if not x.startswith("_")},
+                              "model_answer": a, "correspondence": "DriverModel.replay"}, no_input=True)
+
     # ---- decide
     exact_q = ""
     exact_cases = []
